@@ -2,9 +2,6 @@
 // R8 (C14/C15): std methods without a vstd specification. Each line is an unchecked assumption
 // about the Rust standard library (documented semantics of the method).
 // (the nine narrowing conversions {u8..u64,i8..i64,u128}::try_from(i128) ARE specified by vstd -- probed)
-pub assume_specification [i128::abs](x: i128) -> (r: i128)
-    requires x > i128::MIN,
-    ensures r as int == abs_int(x as int);
 
 pub assume_specification [<i128 as TryFrom<u128>>::try_from](x: u128) -> (r: Result<i128, <i128 as TryFrom<u128>>::Error>)
     ensures r.is_ok() <==> x <= i128::MAX, r.is_ok() ==> r.unwrap() == x;
